@@ -181,9 +181,18 @@ class C17(Prop):
     # ---- implementation ----------------------------------------------------
     def run_impl(self, case):
         self._seen = seen = []
-        b = ns.Builder(build_seed=case.get("build_seed"), sigs=_NoArgs(),
+        b = ns.Builder(build_seed=case.get("build_seed"), sigs=_NoArgs(), probe_names=case["names"], late_config=True,
                        on_call=lambda tid, ctx, a, k: seen.append([tid, gt.jsonable(gt.deep_view(ctx.config))]))
-        coll, st = ns.build_and_dump(case["script"], b)
+
+        def early_lookups(c):
+            # every name is looked up once BEFORE the held-back configure() calls: lookup, then
+            # configure() on a collection of the path, then the judged lookup below
+            for nm in case["names"]:
+                try:
+                    c.configuration(nm)
+                except Exception:  # noqa
+                    pass
+        coll, st = ns.build_and_dump(case["script"], b, before_finish=early_lookups)
         obs = []
         if coll is not None:
             for nm in case["names"]:
@@ -377,19 +386,31 @@ class C17(Prop):
             names = ns.resolvable_names(st["ok"]) + [None, None]
             session = [rng.choice(names) for _ in range(rng.randint(3, 7))]
             stored = [copy.deepcopy(c._configuration) for c in all_colls(coll)]
-            expected = {}
             bad = None
-            for nm in session:
+            for step, nm in enumerate(session):
+                if step and rng.random() < 0.4:
+                    # between two reads somebody configures a collection of the tree (a plugin adjusting
+                    # its module's settings): every later read must show it
+                    target = rng.choice(list(all_colls(coll)))
+                    try:
+                        target.configure(rng.choice([{"k": {"x": step}}, {"late_%d" % step: step},
+                                                     {"sec": {"one": step, "n%d" % step: {"q": 1}}},
+                                                     {"run": {"env": {"A": str(step)}}}]))
+                    except Exception:  # the tree is (now) type-inconsistent there: documented error
+                        pass
+                    stored = [copy.deepcopy(c._configuration) for c in all_colls(coll)]
                 try:
                     first = coll.configuration(nm)
                 except Exception:  # lookups that fail are judged by the shard cases
                     continue
                 evals += 1
                 ref = copy.deepcopy(first)
-                if nm in expected and expected[nm] != ref:
-                    bad = "configuration(%r) changed between two reads of one session" % (nm,)
+                # each read is compared with a reference recomputed from the stored configurations as
+                # they are NOW (outer wins, deep merge along the path), not with earlier reads
+                want = _reference(coll, nm)
+                if want is not None and want != ref:
+                    bad = "configuration(%r) is not the merge of the configurations stored along its path" % (nm,)
                     break
-                expected[nm] = ref
                 # known: list-valued settings are copied shallowly (F-C17c) -- checked apart, on a
                 # throw-away read, and undone
                 probe = coll.configuration(nm)
@@ -411,8 +432,50 @@ class C17(Prop):
         failures = failures + shallow[:1]
         return [{"name": "fresh-copy-snapshot", "evaluations": evals, "failures": failures,
                  "note": "aliasing half of C17 (test, not theorem): sessions of 3-7 lookups per tree (names, aliases, "
-                         "default shortcuts, None; a collection mounted under two parents), every returned mapping "
-                         "scribbled over, all stored _configuration dicts and re-reads compared with snapshots"}]
+                         "default shortcuts, None; a collection mounted under two parents; configure() calls on "
+                         "collections of the tree between reads), every read compared with a reference recomputed "
+                         "from the configurations stored at that moment, every returned mapping scribbled over, all "
+                         "stored _configuration dicts and re-reads compared with snapshots"}]
+
+
+def _reference(coll, name):
+    """the deep merge, outer wins, of the configurations stored RIGHT NOW along the path of [name], read
+    off the real objects with plain dict operations (no Collection method involved); None = this simple
+    walk does not resolve the name or the configurations are type-inconsistent"""
+    if name is None:
+        return copy.deepcopy(coll._configuration)
+    path = [coll]
+    cur = coll
+    segs = name.split(".") if name else []
+    for _ in range(60):
+        subs = dict(dict.items(cur.collections))
+        if not segs:
+            if cur.default is not None and cur.default in subs:
+                cur = subs[cur.default]
+                path.append(cur)
+                continue
+            if cur.default is None:
+                return None
+            break
+        if len(segs) == 1 and segs[0] not in subs:
+            known = set(dict.keys(cur.tasks)) | set(cur.tasks.aliases.keys())
+            if segs[0] not in known:
+                return None
+            break
+        if segs[0] not in subs:
+            return None
+        cur = subs[segs[0]]
+        path.append(cur)
+        segs = segs[1:]
+    else:
+        return None
+    acc = {}
+    try:
+        for c in reversed(path):           # innermost first, every outer collection wins over it
+            acc = ns.py_merge(acc, copy.deepcopy(c._configuration))
+    except ValueError:
+        return None
+    return acc
 
 
 def _unscribble(d):
